@@ -34,6 +34,9 @@ def _job(job):
         notes += sens.observe_jvec(case, "same")
         if gridding != "same":
             notes += sens.observe_jvec(case, gridding)
+        if job["seed"] % 4 == 1:
+            # source- and frequency-dependent automatic grids
+            notes += sens.observe_jvec(case, "both")
         tr["obsok"] = not notes
         return {"trace": tr, "notes": notes, "job": job}
     except Exception as e:  # noqa
@@ -50,6 +53,7 @@ def run(tier, replay=None):
         "TLC decides the structure of jtvec (gradient machinery with the "
         "residual replaced) and that jvec's expansion is the transpose of "
         "the gradient's collection",
-        "gridding modes: 'same' and a provided computational grid ('input'); "
-        "in-memory; 8^3 cells"]
+        "gridding modes: 'same', a provided computational grid ('input') and "
+        "automatic grids per source and frequency ('both', a quarter of the "
+        "cases); in-memory; small grids"]
     return c07.run_common("C08", _job, tier, replay, 48, 480, rep)
